@@ -318,8 +318,11 @@ EvLoad(ev) ==
         \* a stream the driver did not edit hands over exactly the source's live vertices, each once
         \* (through the channel, or through the gossip server, the proto mapping and updateDag)
         whole == (ev.kind = "" /\ ev.res = "ok") => (ToSet(ev.order) = book[ev.n].live /\ Len(ev.order) = Cardinality(book[ev.n].live))
+        \* the transport is faithful: what reaches the loading book is what the peer's server sent, in that order, nothing
+        \* dropped, repeated or filtered on the way (a prefix of it when the book gave up and stopped reading)
+        wire == ("via" \in DOMAIN ev) => (IsPrefix(ev.order, ev.sent) /\ (ev.res = "ok" => ev.order = ev.sent))
     IN /\ Adopt(m, ev.st)
-       /\ obs' = [ObsOf(ev, IsStrict(ev.a) => (conf /\ srcOK /\ whole)) EXCEPT !.a = IF ev.kind = "" THEN "Load" ELSE "LoadEdited"]
+       /\ obs' = [ObsOf(ev, IsStrict(ev.a) => (conf /\ srcOK /\ whole /\ wire)) EXCEPT !.a = IF ev.kind = "" THEN "Load" ELSE "LoadEdited"]
        /\ UNCHANGED <<vtx, inflight, trxu>>
 
 \* two nodes that were offered the same vertices hold the same ledger and nothing is left parked
